@@ -1,4 +1,5 @@
-// Instantiation driver for the templates of include/pistache/http.h (chunked stream insertion).
+// Instantiation driver for the templates of include/pistache/http.h (chunked stream insertion, response time-out).
+#include <chrono>
 #include <pistache/http.h>
 
 using namespace Pistache;
@@ -13,5 +14,11 @@ namespace pv_inst
         s << c;
         s << Http::flush;
         s << Http::ends;
+    }
+
+    // ResponseWriter::timeoutAfter<Duration> -> Timeout::arm<Duration> (the continuation that fires the time-out)
+    void response_timeout(Http::ResponseWriter& w)
+    {
+        w.timeoutAfter(std::chrono::milliseconds(10));
     }
 } // namespace pv_inst
